@@ -17,7 +17,7 @@ RULE = ('(formula, data, semantics in {standard, output_robustness, input_robust
         'only inputs, only outputs, mixed and variable-free all occur. Oracle: the reference semantics with the predicate rule of the '
         'statement (insensitive predicate -> +inf/-inf by satisfaction with strict/non-strict comparison as written, resp. 0 under the '
         'vacuity semantics; every other predicate keeps its robustness); second relation: under STANDARD the result is identical for '
-        'every io assignment (compared with the run without declarations and with the reference). Lane reparse: the io declarations of an object are changed and the text parsed again '
+        'every io assignment (compared with the run without declarations and with the reference). Lane modular: a decomposition into sub-specifications (machinery of C09; in half of the cases an arithmetic term that is a sub-specification of its own and the left operand of two predicates) under an interface-aware semantics equals the inlined specification under the same semantics on the same monitor. Lane reparse: the io declarations of an object are changed and the text parsed again '
         '(variables declared through the API, or implicitly by the first parse()): the result is that of a fresh object with the new declarations. Non-trivial = a non-standard '
         'semantics with >= 1 insensitive and >= 1 sensitive predicate; distinct = distinct (formula, data, semantics, io, kind) digests.')
 
@@ -293,7 +293,90 @@ def check_reparse(case):
     return PASS(io_clean(io1) != io_clean(io2) and first != fresh, labels)
 
 
+# ---- modular specifications under the interface-aware semantics ----------------------
+
+@st.composite
+def modular_cases(draw, tier):
+    """A decomposition into sub-specifications (machinery of C09) evaluated under an interface-aware semantics; in half of the
+    cases an arithmetic term over some variables is a sub-specification of its own and the left operand of two predicates whose
+    right operands are a constant and a variable of possibly the other interface class."""
+    from ..modular import decomposed, profile_for
+    kind = draw(st.sampled_from(['dt_off', 'dt_on', 'ct_off', 'ct_on']))
+    base = profile_for(kind).copy(nvars=3, temporal_in_arith=False, max_depth=3, **NOIFF)
+    c = draw(decomposed(kind, tier, profile=base))
+    vs = c['vars']
+    term = other = None
+    if draw(st.booleans()):
+        a = ('var', draw(st.sampled_from(vs)))
+        b = ('var', draw(st.sampled_from(vs)))
+        term = draw(st.sampled_from([('bin', '+', a, b), ('bin', '-', a, b), ('un', 'abs', a), ('bin', '*', a, ('const', 2.0)), ('bin', '-', a, ('const', 1.0))]))
+        other = ('var', draw(st.sampled_from(vs)))
+        cmp_ = st.sampled_from(['<=', '<', '>=', '>'])
+        p1 = ('pred', draw(cmp_), term, ('const', draw(st.sampled_from([0.0, 1.0, 5.0]))))
+        p2 = ('pred', draw(cmp_), term, other)
+        if draw(st.booleans()):
+            p1, p2 = p2, p1
+        g = ('bin', draw(st.sampled_from(['and', 'or', 'implies'])), p1, p2)
+        if draw(st.integers(0, 2)) == 0:
+            g = ('un', draw(st.sampled_from(['once', 'historically'])), g)
+        f = from_json(c['formula'])
+        c['formula'] = g if draw(st.integers(0, 2)) == 0 else ('bin', draw(st.sampled_from(['and', 'or'])), g, f)
+        subs = [from_json(x) for x in c['subs']]
+        subs = [x for x in subs if x in set(F.subterms(c['formula']))]
+        if term not in subs:
+            subs.append(term)
+        c['subs'] = sorted(subs, key=lambda x: (F.size(x), repr(x)))
+        c['late_inline'] = None
+        c['extra'] = None
+    c['sem'] = draw(st.sampled_from(SEMS[1:] + SEMS))
+    c['io'] = draw(io_assign(vs))
+    if term is not None and draw(st.booleans()):
+        # the variables of the shared term in one interface class, the variable compared with it in the other
+        tv = F.fvars(term)
+        if other[1] not in tv:
+            k1, k2 = draw(st.sampled_from([('input', 'output'), ('output', 'input')]))
+            for v in tv:
+                c['io'][v] = k1
+            c['io'][other[1]] = k2
+    return c
+
+
+def check_modular(case):
+    from ..modular import build_modular, feed
+    from . import C09
+    kind = case['kind']
+    f = from_json(case['formula'])
+    sem = case['sem']
+    labels = ['modular', 'kind:' + kind, 'sem:' + sem, 'subs:%d' % len(case['subs'])] + feature_labels(f)
+    if not F.fvars(f):
+        return DISCARD('no-variable', labels)
+    try:
+        inl = feed(case, build_modular(case, inline=True))
+    except Exception as e:  # noqa
+        return DISCARD('inlined-raises(C17):' + type(e).__name__, labels)
+    desc = 'semantics %s, io %s\n%s' % (sem, case['io'], C09.describe(case))
+    try:
+        mod = feed(case, build_modular(case, inline=False))
+    except Exception as e:  # noqa
+        from ..monitors import exc_outcome
+        o = exc_outcome(e)
+        return FAIL('ia-modular-raises:%s:%s' % (kind, o[1]), desc + '\nmodular specification raised %s: %s at %s' % (o[1], o[3], o[4]), labels)
+    msg = C09.compare(kind, mod, inl, f)
+    if msg:
+        return FAIL('ia-modular-differs:%s:%s' % (kind, 'standard' if sem == 'standard' else 'ia'), desc + '\n' + msg, labels)
+    io = {v: case['io'].get(v) for v in case['vars']}
+    ins, sen = pred_classes(f, sem, io) if sem != 'standard' else (0, 0)
+    return PASS(bool(case['subs']) and ins >= 1 and sen >= 1, labels)
+
+
+def cand_modular(case):
+    from ..modular import mod_candidates
+    for c in mod_candidates(case):
+        yield c
+
+
 LANES = [
+    Lane('modular', modular_cases, check_modular, 2000, 20000, cand_modular),
     Lane('reparse', lambda tier: reparse_cases(tier), check_reparse, 1000, 15000, std_candidates),
     Lane('dt_off', lambda tier: dt_cases6(tier, 'dt_off'), check_dt, 2500, 40000, std_candidates),
     Lane('dt_on', lambda tier: dt_cases6(tier, 'dt_on'), check_dt, 1500, 20000, std_candidates),
